@@ -10,6 +10,9 @@ CHECKS = {
          "Generated host-shareable type trees (storage/uniform/workgroup, @align/@size in every spelling, f16, runtime tails) are lowered and every offset/span/stride/size in the IR is compared with an independent implementation of the WGSL layout rules; exploration only, absence is not shown.",
          "Trusted: verif/internal/wgen layout code (written from the WGSL spec tables).", "DESIGN.md §4 C07"),
 }
+CHECKS["C12"] = ("property-based testing (rapid state machine over compile histories) + fresh-process differential + race-detector stress",
+         "Generated histories of lowerings and backend invocations (incl. one reused spirv.Backend, dxil, ProcessOverrides on a clone) over corpus and generated programs; after every step the output digest must equal that of a fresh pipeline and the deep hash of the pooled module must be unchanged; corpus compiled in several fresh processes must give identical digests; concurrent compilations run under the Go race detector. Exploration: schedules are sampled, not enumerated.",
+         "Trusted: irx.Hash completeness; SHA-256 digests; the race detector only sees executed paths.", "DESIGN.md §4 C12")
 PENDING = {}  # filled below
 
 def main():
